@@ -119,15 +119,16 @@ func errResult(stage string, err liquid.SourceError, root string) result {
 
 // renderSetup is everything a render case needs, realised.
 type renderSetup struct {
-	src      string
-	bindings map[string]any
-	engine   *liquid.Engine
-	path     string // absolute (under root) or ""
-	line0    int
-	root     string // temp dir holding the case's files, or ""
-	repeat   int    // how many times the parsed template is rendered (results must agree)
-	snaps    *snapRecorder
-	setupErr liquid.SourceError // registering a cached source failed
+	src       string
+	bindings  map[string]any
+	engine    *liquid.Engine
+	path      string // absolute (under root) or ""
+	line0     int
+	root      string // temp dir holding the case's files, or ""
+	repeat    int    // how many times the parsed template is rendered (results must agree)
+	snaps     *snapRecorder
+	setupErr  liquid.SourceError // registering a cached source failed
+	wantFinal bool
 }
 
 // snapRecorder collects what the harness's own tag {% lqh_snap name label %} sees: the Go value bound to the name at
@@ -137,6 +138,53 @@ type snapRecorder struct {
 	mu      sync.Mutex
 	off     bool // (set before the concurrent renders: their snaps would interleave)
 	byLabel map[string][]any
+	final   []any // the bindings at {% lqh_env %}: [name, kind, text] for every name bound to something other than nil
+	hasFin  bool
+}
+
+// envTag records, once, what is bound at the point where it stands (names bound to nil count as unbound).
+func (sr *snapRecorder) envTag(c render.Context) (string, error) {
+	sr.mu.Lock()
+	defer sr.mu.Unlock()
+	if sr.off || sr.hasFin {
+		return "", nil
+	}
+	sr.hasFin = true
+	b := c.Bindings()
+	names := make([]string, 0, len(b))
+	for k := range b {
+		names = append(names, k)
+	}
+	sort.Strings(names)
+	for _, k := range names {
+		v := b[k]
+		for i := 0; i < 4; i++ { // a Drop or a pointer stands for its value
+			if d, ok := v.(liquid.Drop); ok {
+				v = d.ToLiquid()
+			} else if rv := reflect.ValueOf(v); v != nil && rv.Kind() == reflect.Ptr && !rv.IsNil() {
+				v = rv.Elem().Interface()
+			} else {
+				break
+			}
+		}
+		if v == nil || strings.HasPrefix(k, "hv") && strings.HasSuffix(k, "_") {
+			continue
+		}
+		kind, text := "other", ""
+		switch x := v.(type) {
+		case string:
+			kind, text = "str", x
+		case bool:
+			kind, text = "bool", fmt.Sprint(x)
+		case int:
+			kind, text = "int", fmt.Sprint(x)
+		}
+		if rv := reflect.ValueOf(v); rv.Kind() == reflect.Ptr && rv.IsNil() {
+			continue
+		}
+		sr.final = append(sr.final, []any{bytesJSON(k), kind, bytesJSON(text)})
+	}
+	return "", nil
 }
 
 func (sr *snapRecorder) tag(c render.Context) (string, error) {
@@ -268,6 +316,11 @@ func prepareRender(c J) (*renderSetup, error) {
 	if err != nil {
 		return nil, err
 	}
+	wantFinal := jbool(c, "finalenv") && c["prog"] != nil && !strings.Contains(fmt.Sprint(prog), "t:trim")
+	if wantFinal {
+		// the harness's own tag at the very end: what is bound when the render is over
+		src += pr.tag(false, "lqh_env", false)
+	}
 	if raw, ok := c["src"]; ok && c["prog"] == nil {
 		src = bytesOf(raw)
 	}
@@ -319,6 +372,8 @@ func prepareRender(c J) (*renderSetup, error) {
 	eng := liquid.NewEngine()
 	rs.snaps = &snapRecorder{byLabel: map[string][]any{}}
 	eng.RegisterTag("lqh_snap", rs.snaps.tag)
+	eng.RegisterTag("lqh_env", rs.snaps.envTag)
+	rs.wantFinal = wantFinal
 	registerExt(eng)
 	if jbool(c, "strict") {
 		eng.StrictVariables()
@@ -561,6 +616,12 @@ func runRender(c J) J {
 		// (bindings built from the value universe of the specification: Go structs with pointer fields, which the
 		// fuzzing environments hold, print their fields the way Go does)
 		res = noAddress(rs.src, res)
+	}
+	if rs.wantFinal && rs.snaps.hasFin && res.Outcome == "ok" {
+		if rs.snaps.final == nil {
+			rs.snaps.final = []any{}
+		}
+		obs["finalbinds"] = rs.snaps.final
 	}
 	if d := rs.snaps.firstDiff(); d != "" && res.Outcome == "ok" {
 		res = result{Outcome: "snapdiff", Out: res.Out, Msg: d}
